@@ -183,7 +183,14 @@ func (e *c07Env) exec(idx int, sc *c07Sc) (st c07Status, okey string) {
 	var legal map[string]bool
 	if sc.Expect != nil {
 		exp := sc.Expect
-		if sc.ExpectOrdered != nil {
+		if sc.Probe && sc.ExpectOrdered != nil {
+			if x.cancelInProgressProved() {
+				exp = sc.ExpectOrdered
+				m.Count("cancel_in_progress_before_write_proved_by_stamps", 1)
+			} else {
+				m.Count("cancel_in_progress_not_proved", 1)
+			}
+		} else if sc.ExpectOrdered != nil {
 			if x.lateOrdered() {
 				exp = sc.ExpectOrdered
 				m.Count("late_panic_order_confirmed_by_stamps", 1)
